@@ -634,7 +634,7 @@ func c10r1(r *R) {
 			}
 			if strings.Contains(fname(fn), "headerContinuation).complete") {
 				// must be the recorded flag of the continuation state
-				r.check(d == "$0.streamEnded", key, c.Pos(), "recorded END_STREAM of the initial HEADERS", "continuation completes with "+d+" instead of the recorded END_STREAM")
+				r.check(d == "$0."+contField(r, "bool"), key, c.Pos(), "recorded END_STREAM of the initial HEADERS", "continuation completes with "+d+" instead of the recorded END_STREAM")
 				return
 			}
 			want := "(*golang.org/x/net/http2." + frame + ").StreamEnded($1.(*golang.org/x/net/http2." + frame + "))"
@@ -650,7 +650,7 @@ func c10r1(r *R) {
 			return
 		}
 		fa, ok := st.Addr.(*ssa.FieldAddr)
-		if !ok || structName(fa.X.Type()) != "martian/h2.headerContinuation" || fieldName(fa.X.Type(), fa.Field) != "streamEnded" {
+		if !ok || structName(fa.X.Type()) != "martian/h2.headerContinuation" || fieldName(fa.X.Type(), fa.Field) != contField(r, "bool") {
 			return
 		}
 		rec++
@@ -959,7 +959,7 @@ func c10r5(r *R) {
 	r.check(len(pp) == 1 && pp[0].Ret[0] == "invoke martian/h2.Processor.PushPromise($1, $0.promiseID, $2)", "pushPromiseContinuation.complete", pc.Pos(), "completes with the recorded promise id and the decoded headers", "unexpected completion")
 	hc := r.method(h2pkg, "headerContinuation", "complete")
 	pp, _ = enumPaths(hc, 8, 1)
-	r.check(len(pp) == 1 && pp[0].Ret[0] == "invoke martian/h2.Processor.Header($1, $2, $0.streamEnded, $0.priority)", "headerContinuation.complete", hc.Pos(), "completes with the decoded headers, the recorded END_STREAM and priority", "completion is "+strings.Join(pp[0].Ret, ","))
+	r.check(len(pp) == 1 && pp[0].Ret[0] == "invoke martian/h2.Processor.Header($1, $2, $0."+contField(r, "bool")+", $0."+contField(r, "golang.org/x/net/http2.PriorityParam")+")", "headerContinuation.complete", hc.Pos(), "completes with the decoded headers, the recorded END_STREAM and priority", "completion is "+strings.Join(pp[0].Ret, ","))
 }
 
 func c10r6(r *R) {
@@ -1166,4 +1166,28 @@ func c10r8(r *R) {
 		ok2, why := fresh(data, st.Val, st)
 		r.check(ok2, "relay.data#payload-owned", st.Pos(), "DATA payload is a fresh copy of the received bytes", why)
 	})
+}
+
+// contField names the single field of headerContinuation that has the given
+// type (the recorded END_STREAM flag, the recorded priority): the rules follow
+// the field by its role, not by its spelling.
+func contField(r *R, typ string) string {
+	obj := r.pkg(h2pkg).Pkg.Scope().Lookup("headerContinuation")
+	if obj == nil {
+		r.missing("type h2.headerContinuation")
+	}
+	st, ok := obj.Type().Underlying().(*types.Struct)
+	if !ok {
+		r.missing("struct h2.headerContinuation")
+	}
+	var names []string
+	for i := 0; i < st.NumFields(); i++ {
+		if st.Field(i).Type().String() == typ {
+			names = append(names, st.Field(i).Name())
+		}
+	}
+	if len(names) != 1 {
+		r.missing("exactly one %s field in h2.headerContinuation (found %d)", typ, len(names))
+	}
+	return names[0]
 }
